@@ -43,6 +43,24 @@ CHECKS = {
          'and recorded in the tree, as the class (division / regex) the grammar position dictates; a rejection of such a text is a violation too.',
     note=TRUSTED + 'refjs goal-symbol selection as oracle; only inputs refjs accepts are judged.',
     design='DESIGN.md section 3, C05'),
+ 'C06': dict(
+    technique='offline conservation-and-location checker over the recorded token stream of the real Lexer (independent punctuator table, reserved-word set, white-space set, line table)',
+    level='exploration',
+    text='Every text that lexes without error is iterated with Lexer(yield_comments=True); the recorded tokens are checked offline: ordered, '
+         'non-overlapping, value == input substring at lexpos, gaps and tail only white space / line terminators / comments, punctuators '
+         'longest-match, keyword types only on exact reserved words, line and column equal to ES5 line-terminator counting. Inputs: lexical '
+         'soups over all literal spellings, white-space and line-terminator code points, programs rendered with each terminator kind.',
+    note=TRUSTED + 'the checker\'s own tables (ECMA-262 7.2, 7.3, 7.6.1, 7.7) and refjs.LineTable.',
+    design='DESIGN.md section 3, C06'),
+ 'C12': dict(
+    technique='totality monitor: outcome classifier at the entry points + logical step budget raised from a hook on Lexer._token + error-message position checker',
+    level='exploration',
+    text='parse (with/without comment capture) and Lexer iteration are run on every truncation and seeded single-character corruption of '
+         'corpus and generated programs, on every string of length<=3 (thorough: 4) over a 44-character lexical alphabet, on random Unicode '
+         'strings (non-BMP, lone surrogates) and on pathological shapes; any exception other than ECMASyntaxError, or exceeding '
+         '6*len+60 lexer steps, is a violation; the first quoted text of every syntax-error message must occur at the quoted line:column.',
+    note=TRUSTED + 'exception taxonomy of calmjs.parse.exceptions; independent line table; wall-clock watchdog only as inconclusive.',
+    design='DESIGN.md section 3, C12'),
 }
 
 PENDING = 'monitor planned in DESIGN.md section 3 but not built yet in this round; no claim is made'
